@@ -1,3 +1,4 @@
+import Heathcliff.Proofs.C01Q
 import Heathcliff.Proofs.C01P
 import Heathcliff.Proofs.C01O
 import Heathcliff.Proofs.C01J
@@ -144,5 +145,85 @@ theorem c01p_levelWF_of_new : type_of% @HC.c01p_levelWF_of_new := @HC.c01p_level
 /-- all hypotheses of `bfvDecrypt_size2_eq_spec` hold simultaneously for a concrete level built by the model's
     constructors (N = 2, q = 17, t = 5, γ = 11) and a concrete ciphertext with non-zero noise -/
 theorem c01p_hypotheses_satisfiable : type_of% @HC.c01p_hypotheses_satisfiable := @HC.c01p_hypotheses_satisfiable
+
+
+/-! ### general size, CKKS, and the driver's own level constructor: every level `Drv.Sch.mkLevel` builds satisfies all hypothesis bundles, and whenever the oracle commits the driver's model column equals its spec column
+    (statements, hypothesis bundles and non-vacuity instances: Heathcliff/Proofs/C01Q.lean, section "Property theorems") -/
+
+/-- Q1 (BFV, ANY size ≥ 2, coefficient form): the model's `bfvDecrypt` equals the exact-integer specification
+    `trim (bfvDecode t Q (phase …))` under the BEHZ γ-condition on the exact phase; same hypotheses as
+    `bfvDecrypt_size2_eq_spec` -/
+theorem bfvDecrypt_eq_spec : type_of% @HC.bfvDecrypt_eq_spec := @HC.bfvDecrypt_eq_spec
+
+/-- Q1 (BGV, ANY size ≥ 2, NTT form, correction factor cf < 2^63 coprime to t): the model's `bgvDecrypt` equals the
+    exact-integer specification on the coefficient forms of the input polynomials; ties x̃ = Q/2 excluded -/
+theorem bgvDecrypt_eq_spec : type_of% @HC.bgvDecrypt_eq_spec := @HC.bgvDecrypt_eq_spec
+
+/-- BGV decryption (any size ≥ 2, NTT form) refuses a correction factor ≠ 1 that is not invertible modulo t -/
+theorem bgvDecrypt_refuses_cf : type_of% @HC.bgvDecrypt_refuses_cf := @HC.bgvDecrypt_refuses_cf
+
+/-- Q2 (CKKS, ANY size ≥ 2, NTT form): the model's `ckksDecrypt` returns exactly the NTT form of the exact phase
+    `Spec.phase` (of the coefficient forms of the input) reduced modulo every q_i — the expression the driver's oracle evaluates.
+    Needs no plain-modulus constants: only `Level.WF` and `c07s_LevelQ`. -/
+theorem ckksDecrypt_eq_spec : type_of% @HC.ckksDecrypt_eq_spec := @HC.ckksDecrypt_eq_spec
+
+/-- Q2, component form: the result is canonical, and the inverse transform of component i is the exact phase modulo q_i;
+    the exact phase is the centred lift (all coefficients in (-Q/2, Q/2]) -/
+theorem ckksDecrypt_intt_eq_phase : type_of% @HC.ckksDecrypt_intt_eq_phase := @HC.ckksDecrypt_intt_eq_phase
+
+/-- CKKS decryption refuses coefficient-form ciphertexts -/
+theorem ckksDecrypt_refuses_coeff : type_of% @HC.ckksDecrypt_refuses_coeff := @HC.ckksDecrypt_refuses_coeff
+
+/-- CKKS decryption refuses ciphertexts with fewer than two polynomials -/
+theorem ckksDecrypt_refuses_small : type_of% @HC.ckksDecrypt_refuses_small := @HC.ckksDecrypt_refuses_small
+
+/-- Q3, all bundles at once, from `RNSBase.new`, `RNSTool.new`, `NTTTables.new` (bundle `c01q_Built` = literally these calls) -/
+theorem level_bundles_of_constructors : type_of% @HC.level_bundles_of_constructors := @HC.level_bundles_of_constructors
+
+/-- Q4: every level returned by the driver's `Drv.Sch.mkLevel` satisfies all hypothesis bundles of the end-to-end theorems —
+    with NO hypothesis on the inputs (everything needed is checked by the constructors the driver calls) — and its fields are
+    the driver's inputs.  The plain-modulus bundles (`DecOK`, `c05u_BgvOK`) need t ≠ 0 (for t = 0, the CKKS case, the tool has
+    no such constants: see `mkLevel_t0`). -/
+theorem mkLevel_ok : type_of% @HC.mkLevel_ok := @HC.mkLevel_ok
+
+/-- with t = 0 the tool carries no plain-modulus constants, and BFV decryption at such a level refuses -/
+theorem mkLevel_t0 : type_of% @HC.mkLevel_t0 := @HC.mkLevel_t0
+
+/-- necessary conditions on the inputs (contrapositive = refusals of `mkLevel`): degree a power of two in [2, 2^17],
+    between 1 and 64 moduli, each in [2, 2^61), ≡ 1 mod 2n, accepted by the Miller–Rabin test -/
+theorem mkLevel_ok_inputs : type_of% @HC.mkLevel_ok_inputs := @HC.mkLevel_ok_inputs
+
+/-- END TO END on the driver's objects (BFV): for the level the driver builds, the model's decryption equals the expression the
+    driver's oracle `exactDec` evaluates (`trim (bfvDecode t (prodL qs) (exactPhase …))`), for every size ≥ 2, under the BEHZ
+    γ-condition on the exact phase -/
+theorem mkLevel_bfvDecrypt_eq_oracle : type_of% @HC.mkLevel_bfvDecrypt_eq_oracle := @HC.mkLevel_bfvDecrypt_eq_oracle
+
+/-- END TO END on the driver's objects (BGV) -/
+theorem mkLevel_bgvDecrypt_eq_oracle : type_of% @HC.mkLevel_bgvDecrypt_eq_oracle := @HC.mkLevel_bgvDecrypt_eq_oracle
+
+/-- END TO END on the driver's objects (CKKS, any t): the model returns exactly the oracle's value -/
+theorem mkLevel_ckksDecrypt_eq_oracle : type_of% @HC.mkLevel_ckksDecrypt_eq_oracle := @HC.mkLevel_ckksDecrypt_eq_oracle
+
+/-- BFV: whenever the oracle commits to a value (`bfvSafe`) and the BEHZ γ-condition holds, the two strings the driver
+    compares are equal -/
+theorem driver_dec_bfv : type_of% @HC.driver_dec_bfv := @HC.driver_dec_bfv
+
+/-- BGV: whenever the oracle commits to a value, the two strings are equal -/
+theorem driver_dec_bgv : type_of% @HC.driver_dec_bgv := @HC.driver_dec_bgv
+
+/-- CKKS: the two strings are equal for every canonical NTT-form ciphertext of size ≥ 2 -/
+theorem driver_dec_ckks : type_of% @HC.driver_dec_ckks := @HC.driver_dec_ckks
+
+/-- BFV, the driver's two columns: whenever the oracle commits to a value (`bfvSafe`), the model's output string equals the
+    oracle's — for EVERY canonical coefficient-form ciphertext of size ≥ 2, with no further hypothesis (the oracle's safety
+    margin 2^-40 implies the BEHZ γ-condition because γ > 2^60 and there are at most 64 moduli) -/
+theorem driver_dec_bfv_safe : type_of% @HC.driver_dec_bfv_safe := @HC.driver_dec_bfv_safe
+
+/-- BGV, the driver's two columns: whenever the oracle commits to a value, the model's output string equals the oracle's
+    (the oracle's test excludes ties) -/
+theorem driver_dec_bgv_safe : type_of% @HC.driver_dec_bgv_safe := @HC.driver_dec_bgv_safe
+
+/-- all hypotheses of `mkLevel_bfvDecrypt_eq_oracle` hold simultaneously for a size-3 ciphertext on a level the driver builds -/
+theorem c01q_hypotheses_satisfiable : type_of% @HC.c01q_hypotheses_satisfiable := @HC.c01q_hypotheses_satisfiable
 
 end HC.C01
